@@ -2,6 +2,7 @@
 # run_all.sh <quick|thorough> : every claimed check against /repo, sequentially
 cd "$(dirname "$0")/.."
 tier=${1:-quick}
+mkdir -p .work
 rc=0
 for p in C03 C08 C09 C14 C18 C19 C20; do
   t0=$(date +%s)
